@@ -757,6 +757,8 @@ def run(ctx):
     ctx.log("real gthread run(): 10 MiB responses to a client that pauses before reading: %d failures" % len(rf))
     for f in rf[:2]:
         ctx.violation("real gthread worker: " + f, {"kind": "real-gthread-big"})
+    import lib_battery
+    lib_battery.report(ctx, "responses", "battery")
     n_rand = 2300 if ctx.quick() else 45000
     cases = fixed_cases()
     for i in range(n_rand):
@@ -855,6 +857,9 @@ def search(ctx, seeds):
 
 
 def replay(rep):
+    if rep.get("kind") == "battery":
+        import lib_battery
+        return lib_battery.replay(rep)
     if rep.get("kind") == "real-gthread-big":
         fs = real_gthread_big_responses()
         print("failures:", fs)
